@@ -6,6 +6,7 @@
 package c11
 
 import (
+	"bytes"
 	"context"
 	"fmt"
 	"sync"
@@ -14,10 +15,12 @@ import (
 
 	k1 "github.com/decred/dcrd/dcrec/secp256k1/v4"
 	"github.com/libp2p/go-libp2p/core/peer"
+	"github.com/libp2p/go-msgio/pbio"
 
 	"github.com/obolnetwork/charon/cluster"
 	"github.com/obolnetwork/charon/dkg"
 	"github.com/obolnetwork/charon/dkg/bcast"
+	dkgpb "github.com/obolnetwork/charon/dkg/dkgpb/v1"
 	"github.com/obolnetwork/charon/dkg/pedersen"
 	"github.com/obolnetwork/charon/dkg/share"
 	"github.com/obolnetwork/charon/p2p"
@@ -95,6 +98,18 @@ func ceremony(ctx context.Context, c *kernel.Ctx, cer int, net *simnet.Net) {
 		}
 		verifrt.Fault("deviating-dealer")
 	}
+	// A sloppy (faulty) member (FROST, a fifth of the ceremonies): its round 1 peer-to-peer message to ONE
+	// other member is incomplete or malformed in a way the receiving callback lets through - the share of one
+	// validator is missing, duplicated, or replaced by a second copy of another validator's share. The
+	// ceremony may abort at any node (an error or a panic of that node's ceremony goroutine both count as
+	// "this node did not complete"); if every node completes, the result must be a consistent t-of-n key.
+	sloppy, victim, sloppyVal, sloppyKind := -1, -1, 0, 0
+	if algo == "frost" && deviant < 0 && verifrt.Intn("cfg", 5) == 3 {
+		sloppy = verifrt.Intn("cfg", n)
+		victim = (sloppy + 1 + verifrt.Intn("cfg", n-1)) % n
+		sloppyVal = verifrt.Intn("cfg", vals)
+		sloppyKind = verifrt.Intn("cfg", 3)
+	}
 	maxDelay := 1 + verifrt.Intn("cfg", 200)
 	dupPct := []int{0, 10}[verifrt.Intn("cfg", 2)]
 	c.Set(fmt.Sprintf("ceremony%d", cer), fmt.Sprintf("%s n=%d t=%d validators=%d maxDelayMs=%d dup%%=%d", algo, n, t, vals, maxDelay, dupPct))
@@ -117,6 +132,7 @@ func ceremony(ctx context.Context, c *kernel.Ctx, cer int, net *simnet.Net) {
 		}
 		return f
 	}
+	net.Tap = nil
 	var ids []peer.ID
 	peers := map[peer.ID]cluster.NodeIdx{}
 	for i := 0; i < n; i++ {
@@ -126,6 +142,43 @@ func ceremony(ctx context.Context, c *kernel.Ctx, cer int, net *simnet.Net) {
 		}
 		ids = append(ids, id)
 		peers[id] = cluster.NodeIdx{PeerIdx: i, ShareIdx: i + 1}
+	}
+	if sloppy >= 0 {
+		net.Tap = func(e *simnet.Envelope) {
+			if e.Response || string(e.Proto) != "/charon/dkg/frost/2.0.0/round1/p2p" || e.From != ids[sloppy] || e.To != ids[victim] {
+				return
+			}
+			var m dkgpb.FrostRound1P2P
+			if err := pbio.NewDelimitedReader(bytes.NewReader(e.Payload), 128<<20).ReadMsg(&m); err != nil {
+				panic("c11 harness: cannot decode round 1 p2p message: " + err.Error())
+			}
+			var out []*dkgpb.FrostRound1ShamirShare
+			for _, sh := range m.GetShares() {
+				if int(sh.GetKey().GetValIdx()) != sloppyVal {
+					out = append(out, sh)
+					continue
+				}
+				switch sloppyKind {
+				case 0: // missing
+				case 1: // present twice
+					out = append(out, sh, sh)
+				default: // replaced by a second copy of another validator's share (if there is one)
+					for _, o := range m.GetShares() {
+						if o.GetKey().GetValIdx() != sh.GetKey().GetValIdx() {
+							out = append(out, o)
+							break
+						}
+					}
+				}
+			}
+			m.Shares = out
+			var w bytes.Buffer
+			if err := pbio.NewDelimitedWriter(&w).WriteMsg(&m); err != nil {
+				panic(err)
+			}
+			e.Payload = w.Bytes()
+			verifrt.Fault([]string{"sloppy-peer:share-missing", "sloppy-peer:share-twice", "sloppy-peer:share-of-other-validator"}[sloppyKind])
+		}
 	}
 	session := []byte(fmt.Sprintf("definition-hash-%d", cer))
 	results := make([][]share.Share, n)
@@ -162,6 +215,13 @@ func ceremony(ctx context.Context, c *kernel.Ctx, cer int, net *simnet.Net) {
 		wg.Add(1)
 		verifrt.GoNode(fmt.Sprintf("c%dn%d", cer, me), func() {
 			defer wg.Done()
+			defer func() {
+				// a panic of the ceremony goroutine ends this node's ceremony (in production: the process)
+				if r := recover(); r != nil {
+					errs[me] = fmt.Errorf("ceremony goroutine panicked: %v", r)
+					verifrt.Probe("node-ceremony-panicked")
+				}
+			}()
 			verifrt.Sleep(time.Duration(verifrt.Intn("w", 100)) * time.Millisecond) // nodes start the rounds at different times
 			cctx, ccancel := context.WithTimeout(ctx, 10*time.Minute)
 			defer ccancel()
@@ -184,6 +244,10 @@ func ceremony(ctx context.Context, c *kernel.Ctx, cer int, net *simnet.Net) {
 				verifrt.Probe("ceremony-refused-with-deviating-dealer")
 				return
 			}
+			if sloppy >= 0 {
+				verifrt.Probe("ceremony-aborted-with-sloppy-peer")
+				return
+			}
 			if stragglers > 0 {
 				// messages of an earlier ceremony reached this one: refusing to complete is a legitimate
 				// outcome (the statement is about successful ceremonies); only a ceremony that nothing
@@ -198,6 +262,9 @@ func ceremony(ctx context.Context, c *kernel.Ctx, cer int, net *simnet.Net) {
 	c.Progress()
 	if deviant >= 0 {
 		verifrt.Probe("ceremony-completed-with-deviating-dealer")
+	}
+	if sloppy >= 0 {
+		verifrt.Probe("ceremony-completed-with-sloppy-peer")
 	}
 	checkShares(c, n, t, vals, results)
 }
